@@ -1,7 +1,8 @@
 (* C05  A finished run stays finished: at most one complex event per run and instance.  Statements only. *)
 From Bobo Require Import Base.Prelude Base.History Model.Pattern Model.Run Model.Decider Model.PredLang.
 From Bobo Require Import Proofs.RunProofs Proofs.DeciderLemmas Proofs.DeciderProofs Proofs.StepProofs.
-From Bobo Require Import Proofs.RemoteProofs Proofs.RemoteWitness.
+From Bobo Require Import Model.Cluster Model.Converge Model.ConvergeC.
+From Bobo Require Import Proofs.RemoteProofs Proofs.RemoteWitness Proofs.ConvergeProofs Proofs.JoinProofs Proofs.LocalProofs Proofs.SimProofs.
 
 Section C05.
   Variable E : Type.
@@ -38,8 +39,29 @@ Section C05.
   Theorem C05_halt_beats_progress : forall cfg (s : dstate E) (m : note E) rc,
     In rc (n_upd (filter_msg cfg s m)) ->
     ~ In (s_id rc) (ids_of (n_comp m)) /\ ~ In (s_id rc) (ids_of (n_halt m)).
-  Proof. exact (halt_beats_progress E). Qed.
+  Proof. exact (RemoteProofs.halt_beats_progress E). Qed.
 End C05.
+
+(* Over whole histories (non-singleton patterns, memory enabled with room, well-formed messages made of announced
+   facts): once an instance has seen a run halt or complete - locally or through a peer - the run is finished on
+   that instance after every later local event and every later, stale, merged or repeated message; a completed
+   run stays completed.  (cstatus >= Halted means: not among the active runs.) *)
+Theorem C05_finished_is_absorbing :
+  forall (E : Type) (owner : Z -> Z * Z) (cfg : config E) (gen : nat -> nat -> Z),
+    (forall ph pat p, get_pattern cfg ph pat = Some p -> p_single p = false) ->
+    cfg_wf E cfg -> c_maxcache cfg <> O ->
+    forall c c' k id, good E owner cfg gen c -> csteps E owner cfg gen c c' ->
+      st_le Halted (cstatus owner (c_st E c k) id) = true ->
+      st_le Halted (cstatus owner (c_st E c' k) id) = true.
+Proof. exact finished_is_absorbing. Qed.
+
+Theorem C05_completed_is_absorbing :
+  forall (E : Type) (owner : Z -> Z * Z) (cfg : config E) (gen : nat -> nat -> Z),
+    (forall ph pat p, get_pattern cfg ph pat = Some p -> p_single p = false) ->
+    cfg_wf E cfg -> c_maxcache cfg <> O ->
+    forall c c' k id, good E owner cfg gen c -> csteps E owner cfg gen c c' ->
+      cstatus owner (c_st E c k) id = Completed -> cstatus owner (c_st E c' k) id = Completed.
+Proof. exact completed_is_absorbing. Qed.
 
 (* the remote path of the pinned commit violates the property (D1 stale update, D2 merged message) *)
 Theorem C05_stale_update_refuted_unfixed :
@@ -59,5 +81,7 @@ Print Assumptions C05_remote_completion_reported_once.
 Print Assumptions C05_finished_leaves_active_set.
 Print Assumptions C05_completion_beats_halt.
 Print Assumptions C05_halt_beats_progress.
+Print Assumptions C05_finished_is_absorbing.
+Print Assumptions C05_completed_is_absorbing.
 Print Assumptions C05_stale_update_refuted_unfixed.
 Print Assumptions C05_merged_message_refuted_unfixed.
